@@ -43,7 +43,7 @@ func (c *c06) Cases(tier string, seed int64) []core.Case {
 	for _, f := range c06Fixed {
 		cs = append(cs, core.MkCase("fixed-"+f, c06Params{Seed: 7, Fixed: f}))
 	}
-	n := map[string]int{"quick": 400, "thorough": 6000}[tier]
+	n := map[string]int{"quick": 400, "thorough": 30000}[tier]
 	for i := 0; i < n; i++ {
 		cs = append(cs, core.MkCase(fmt.Sprintf("layout-%d", i), c06Params{Seed: r.Int63()}))
 	}
